@@ -1180,3 +1180,8 @@ CHECKS["C13"]["note"] = (
     'mention constants; the aliased pair has default attributes (no alias-merge rule assumed); '
     'eliminate_constant_assignments and eliminable_variable_expression are not among the events.'
 )
+
+CHECKS["C09"]["text"] += (
+    " A further model has two connector classes with the same short name (E.Pin, T.Pin) and different variable lists, connected "
+    "side by side with <= 2 (3) clauses, each within one class."
+)
